@@ -437,7 +437,7 @@
   (ite (> (str.len (KeyValue_Value kv)) 0) (str.++ (KeyValue_Key kv) "=" (KeyValue_Value kv)) (KeyValue_Key kv)))
 (define-fun kvOfText ((p String)) D_KeyValue
   (ite (>= (str.indexof p "=" 0) 0)
-       (mk_KeyValue (str.substr p 0 (str.indexof p "=" 0)) (str.substr p (+ (str.indexof p "=" 0) 1) (str.len p)))
+       (mk_KeyValue (str.substr p 0 (str.indexof p "=" 0)) (str.substr p (+ (str.indexof p "=" 0) 1) (- (str.len p) (+ (str.indexof p "=" 0) 1))))
        (mk_KeyValue p "")))
 ; text of the first i parameters of a list, each preceded by sep (";" for uri- and header parameters)
 (declare-fun kvSeqText (String Sq_D_KeyValue Int) String)
